@@ -351,8 +351,11 @@ func TestC06(t *testing.T) {
 			if !enumTypes[p.GoType] {
 				continue
 			}
-			for _, s := range c06Texts {
+			for ti, s := range c06Texts {
 				for fi, nl := range mkForms(s) {
+					if fi >= 5 && ti%4 != 0 && !r.Thorough() {
+						continue // the forms with text-less entries: every fourth text in the quick tier, all in the thorough one
+					}
 					for ci := range c06Codecs {
 						total++
 						cell := fmt.Sprintf("%s.%s form=%d %s %q", p.GoType, p.Field, fi, c06Codecs[ci].name, s)
